@@ -26,7 +26,7 @@ class Scenario(object):
     """benchmarks: list of names; one suite S, one executor E, experiment T (+ optional second experiment)"""
 
     def __init__(self, wd, benchmarks, invocations, iterations, crits, data_file='t.data',
-                 second_exp=None, profile=False):
+                 second_exp=None, profile=False, third_exp=None):
         self.wd = wd
         self.benchmarks = list(benchmarks)
         self.invocations = invocations
@@ -34,6 +34,7 @@ class Scenario(object):
         self.crits = crits             # extra criteria per data point
         self.data_file = data_file
         self.second_exp = second_exp   # None | dict(benchmarks=[...], data_file=None|name)
+        self.third_exp = third_exp     # same, experiment V (suite S3, executor E3)
         self.profile = profile
         self.serial = SERIAL_BASE
         self.session = 0
@@ -56,6 +57,13 @@ class Scenario(object):
             exps['U'] = {'suites': ['S2'], 'executions': ['E2']}
             if self.second_exp.get('data_file'):
                 exps['U']['data_file'] = self.second_exp['data_file']
+        if self.third_exp:
+            suites['S3'] = {'gauge_adapter': 'RebenchLog', 'command': 'h3 %(benchmark)s',
+                            'benchmarks': list(self.third_exp['benchmarks'])}
+            executors['E3'] = {'path': '.', 'executable': 'exe3'}
+            exps['V'] = {'suites': ['S3'], 'executions': ['E3']}
+            if self.third_exp.get('data_file'):
+                exps['V']['data_file'] = self.third_exp['data_file']
         return {'default_experiment': 'T', 'default_data_file': self.data_file,
                 'runs': {'invocations': self.invocations},
                 'benchmark_suites': suites, 'executors': executors, 'experiments': exps}
